@@ -4,6 +4,7 @@ C12 — simulation time is paced against real time by the configured speed
 -/
 import TickitModel.Lemmas.MiscLemmas
 import TickitModel.Core.Sim
+import TickitModel.Lemmas.MiscArith
 
 namespace Tickit
 
@@ -13,7 +14,7 @@ namespace Tickit
 theorem never_early (m : MasterSt) (s : Speed) (hs : 0 < s.num) (whenT : SimTime) :
     m.now ≤ dueReal m s whenT ∧
     (whenT - m.tickerTime) * s.den ≤ (dueReal m s whenT - m.lastReal) * s.num := by
-  sorry
+  exact never_early' m s hs whenT
 
 /-- **exact when free**: if the wait is a whole number of nanoseconds and not already
 overdue, the tick starts exactly `(whenT - tPrev)/speed` after the previous one ended. -/
@@ -21,24 +22,26 @@ theorem exact_when_free (m : MasterSt) (s : Speed) (hs : 0 < s.num) (whenT : Sim
     (hnn : 0 ≤ sleepNumer whenT m.tickerTime m.now m.lastReal s)
     (hdiv : (s.num : Int) ∣ sleepNumer whenT m.tickerTime m.now m.lastReal s) :
     (dueReal m s whenT - m.lastReal) * s.num = (whenT - m.tickerTime) * s.den := by
-  sorry
+  have _ := hs
+  exact exact_when_free' m s whenT hnn hdiv
 
 /-- a late tick is started at once, never delayed further. -/
 theorem late_immediate (m : MasterSt) (s : Speed) (whenT : SimTime)
     (hlate : sleepNumer whenT m.tickerTime m.now m.lastReal s ≤ 0) : dueReal m s whenT = m.now := by
-  sorry
+  exact if_pos hlate
 
 /-- **stamp law**: an interrupt arriving at real time `now ≥ lastReal` is stamped with the
 simulation time corresponding to that real time: `tPrev + ⌊(now - lastReal)·speed⌋`. -/
 theorem stamp_law (t : SimTime) (now last : Int) (s : Speed) (hs : 0 < s.den) (hnow : last ≤ now) :
     (interruptStamp t now last s - t) * s.den ≤ (now - last) * s.num ∧
     (now - last) * s.num < (interruptStamp t now last s - t + 1) * s.den := by
-  sorry
+  exact stamp_law' t now last s hs hnow
 
 /-- an interrupt's own tick is due immediately (it never waits). -/
 theorem interrupt_due_now (m : MasterSt) (s : Speed) (hs : 0 < s.den) (hn : 0 < s.num) (hnow : m.lastReal ≤ m.now) :
     dueReal m s (interruptStamp m.tickerTime m.now m.lastReal s) = m.now := by
-  sorry
+  have _ := hn
+  exact interrupt_due_now' m s hs hnow
 
 /-- **linear law**, one step: if `simTime - t0 = speed·(real - r0)` held when the previous
 tick ended, it holds again when the next tick (callback or interrupt) starts, provided the
@@ -49,14 +52,16 @@ theorem linear_step_callback (m : MasterSt) (s : Speed) (hs : 0 < s.num) (t0 : S
     (hnn : 0 ≤ sleepNumer whenT m.tickerTime m.now m.lastReal s)
     (hdiv : (s.num : Int) ∣ sleepNumer whenT m.tickerTime m.now m.lastReal s) :
     (whenT - t0) * s.den = (dueReal m s whenT - r0) * s.num := by
-  sorry
+  have _ := hs
+  exact linear_step_callback' m s t0 r0 hinv whenT hnn hdiv
 
 theorem linear_step_interrupt (m : MasterSt) (s : Speed) (hd : 0 < s.den) (t0 : SimTime) (r0 : Int)
     (hinv : (m.tickerTime - t0) * s.den = (m.lastReal - r0) * s.num)
     (hnow : m.lastReal ≤ m.now)
     (hdiv : (s.den : Int) ∣ (m.now - m.lastReal) * s.num) :
     (interruptStamp m.tickerTime m.now m.lastReal s - t0) * s.den = (m.now - r0) * s.num := by
-  sorry
+  have _ := hd
+  exact linear_step_interrupt' m s t0 r0 hinv hnow hdiv
 
 example : dueReal { tickerTime := 0, lastReal := 100, now := 130 } ⟨2, 1⟩ 1000 = 600 := by decide
 example : interruptStamp 1000 250 100 ⟨2, 1⟩ = 1300 := by decide
